@@ -9,9 +9,19 @@
           | (csig (PARAM ...) (PARAM ...) (RESULT ...) VARIADIC)    uncurry: outer, inner
           | (tuple N)
    ARGS   = argument ids, in the order in which the caller of the derived function supplies them
-            (apply: the arguments of the returned function followed by the pre-bound value). *)
+            (apply: the arguments of the returned function followed by the pre-bound value).
+
+     (site PLUGIN (FLAG ...) (SIG ...) J ARGS REAL)
+        one derived function reached from several call sites (harness/internal/c15/sites.go):
+        SIG ... are the signatures of the functions passed at the call sites that goderive serves
+        with one generated function, in source order (identical types, other names); FLAG ... the
+        flags goderive ran with (dedup, autoname: the call sites may have been renamed in the
+        user's file); J the call site the driver went through.  The model evaluates the closure
+        nest printed for the FIRST signature (the one that registers the function,
+        derive/typesmap.go) applied to an original function of the J-th signature
+        (Plumb/Shared.v); the specification is the property for the J-th signature. *)
 From Coq Require Import String List ZArith Bool Arith.
-From Verif Require Import Base Sexp Plumb.Model.
+From Verif Require Import Base Sexp Plumb.Model Plumb.Shared.
 Import ListNotations.
 Open Scope string_scope.
 
@@ -103,6 +113,34 @@ Definition model_run (plugin : string) (sh : shape) (args : list val) : option r
       if String.eqb plugin "tuple" then
         if Nat.eqb n (List.length args) then Some (run_tuple res15 FUEL args) else None
       else None
+  end.
+
+(* the function generated for [gen] handed an original function of signature [site] *)
+Definition shared_run (plugin : string) (gen site : shape) (args : list val) : option run_result :=
+  match gen, site with
+  | ShSig s, ShSig t =>
+      if String.eqb plugin "curry" then Some (run_curry res15 hygienic FUEL s (prim_flat t) args)
+      else if String.eqb plugin "flip" then Some (run_flip res15 hygienic FUEL s (prim_flat t) args)
+      else if String.eqb plugin "apply" then Some (run_apply res15 hygienic FUEL s (prim_flat t) args)
+      else if String.eqb plugin "rt" then Some (run_roundtrip res15 hygienic FUEL s (prim_flat t) args)
+      else None
+  | ShCsig c, ShCsig d =>
+      if String.eqb plugin "uncurry" then Some (run_uncurry res15 hygienic FUEL c (prim_curried d) args)
+      else None
+  | ShTuple n, ShTuple m =>
+      if String.eqb plugin "tuple" then
+        if Nat.eqb n m && Nat.eqb n (List.length args) then Some (run_tuple res15 FUEL args) else None
+      else None
+  | _, _ => None
+  end.
+
+(* the hypothesis [same_sig_types] of Plumb/Shared.v *)
+Definition same_shape_types (a b : shape) : bool :=
+  match a, b with
+  | ShSig s, ShSig t => same_sig_typesb s t
+  | ShCsig c, ShCsig d => same_csig_typesb c d
+  | ShTuple n, ShTuple m => Nat.eqb n m
+  | _, _ => false
   end.
 
 (* the property, stated directly: one call of the original function with the arguments in
@@ -201,6 +239,12 @@ Definition nresults (sh : shape) : nat :=
 Definition tag_of (plugin : string) (sh : shape) : string :=
   plugin ++ "/" ++ naming_class sh ++ "/n" ++ itoa (nparams sh) ++ "/r" ++ itoa (nresults sh).
 
+Definition flags_tag (l : list sexp) : string :=
+  match l with
+  | [] => "noflags"
+  | _ => String.concat "+" (map (fun e => match e with Sym s => s | _ => "?" end) l)
+  end.
+
 Definition is_ok (r : run_result) : bool := match r with ROk _ _ => true | _ => false end.
 
 Definition verdict_of (tag : string) (model_ok spec_ok guard : bool) (m : sexp) : verdict :=
@@ -241,6 +285,29 @@ Definition eval15 (e : sexp) : verdict :=
                 else
                   verdict_of tag false (sexp_eqb sp real) false (run_sexp m)
             | _, _ => bad_line
+            end
+        | _, _ => bad_line
+        end
+      else bad_line
+  | L [Sym k; Sym plugin; L flags; L sigs; Num j; argse; real] =>
+      if String.eqb k "site" then
+        match map_opt shape_of sigs, args_of argse with
+        | Some (gen :: others), Some args =>
+            match nth_error (gen :: others) (Z.to_nat j) with
+            | Some site =>
+                match shared_run plugin gen site args, spec_run plugin site args with
+                | Some m, Some sp =>
+                    let tag := "site/" ++ flags_tag flags ++ "/of" ++ itoa (List.length (gen :: others))
+                               ++ (if Z.eqb j 0 then "/first/" else "/later/") ++ tag_of plugin site in
+                    let guard := in_guard plugin gen && in_guard plugin site
+                                 && forallb (same_shape_types gen) others in
+                    if is_ok m then
+                      verdict_of tag (sexp_eqb (run_sexp m) real) (sexp_eqb sp real) guard (run_sexp m)
+                    else
+                      verdict_of tag false (sexp_eqb sp real) false (run_sexp m)
+                | _, _ => bad_line
+                end
+            | None => bad_line
             end
         | _, _ => bad_line
         end
